@@ -419,6 +419,19 @@ fn func_case(cx: &mut Ctx, u: &mut Unstructured) -> R {
         _ => u.int_in_range(0usize..=600).unwrap_or(100),
     };
     let filter: bool = u.arbitrary().unwrap_or(false);
+    func_case_with(cx, which, n, filter)
+}
+
+/// Sharded instances (from 100000 keys the sharding logics store a non-trivial
+/// shard shift and per-shard geometry, which must survive every loading path).
+fn sharded_func_case(cx: &mut Ctx, j: u64) -> R {
+    let which = [0u8, 4, 5, 11, 8, 1, 7, 2][j as usize % 8];
+    let n = [100_001usize, 450_000, 200_003, 799_999, 120_000][(j / 8) as usize % 5];
+    cx.label("sharded-size");
+    func_case_with(cx, which, n, (j / 4) % 2 == 1)
+}
+
+fn func_case_with(cx: &mut Ctx, which: u8, n: usize, filter: bool) -> R {
     cx.hash(&("func", which, n, filter));
     cx.describe(|| format!("{} type #{which} over {n} keys", if filter { "filter" } else { "function" }));
     cx.nontrivial_if(n >= 1);
@@ -482,10 +495,11 @@ impl Property for C15 {
             Segment::random("Elias-Fano variants", tier.pick(3_000, 96_000), &[2], 16, 400),
             Segment::random("rear-coded lists", tier.pick(1_200, 36_000), &[3], 16, 60),
             Segment::random("functions and filters", tier.pick(1_800, 60_000), &[4], 16, 60),
+            Segment::enumerated("sharded functions and filters (>= 100000 keys)", tier.pick(8, 40), &[5]),
         ]
     }
     fn rule(&self) -> &'static str {
-        "case = (structure from a menu: BitVec (Vec and Box backends), BitFieldVec<u8..usize> (Vec and Box), AddNumBits, Rank9, the five RankSmall, Select9, SelectAdapt new/with_inv/with_span, SelectAdaptConst, SelectZeroAdapt, SelectZeroAdaptConst, SelectSmall/SelectZeroSmall, two- and three-level nestings, EliasFano plain/EfSeq/EfDict/EfSeqDict/custom back-end, RearCodedList, VFunc and VFilter on 12 concrete builder types covering the five shard/edge logics and str/String/usize/u64 keys; with generated contents including empty instances) decoded from bytes. Oracle = the original instance: the same generic observation function (len/counts/bits, rank and rank_zero, select, select_zero at sampled and boundary positions incl. far out of range, get/iter/iter_from, index_of/succ/pred queries, get/contains for members and non-members) is run on the original and on the value obtained by serialize + deserialize_full, deserialize_eps on the aligned bytes, store + mmap, load_mem, load_mmap, load_full; answer vectors must be identical; serialize_with_schema must write the same bytes. Non-trivial: non-empty structure with at least two backing arrays; distinct = distinct hash of the decoded case."
+        "case = (structure from a menu: BitVec (Vec and Box backends), BitFieldVec<u8..usize> (Vec and Box), AddNumBits, Rank9, the five RankSmall, Select9, SelectAdapt new/with_inv/with_span, SelectAdaptConst, SelectZeroAdapt, SelectZeroAdaptConst, SelectSmall/SelectZeroSmall, two- and three-level nestings, EliasFano plain/EfSeq/EfDict/EfSeqDict/custom back-end, RearCodedList, VFunc and VFilter on 12 concrete builder types covering the five shard/edge logics and str/String/usize/u64 keys, up to 600 keys and, in an enumerated segment, 100001..799999 keys (sharded instances); with generated contents including empty instances) decoded from bytes. Oracle = the original instance: the same generic observation function (len/counts/bits, rank and rank_zero, select, select_zero at sampled and boundary positions incl. far out of range, get/iter/iter_from, index_of/succ/pred queries, get/contains for members and non-members) is run on the original and on the value obtained by serialize + deserialize_full, deserialize_eps on the aligned bytes, store + mmap, load_mem, load_mmap, load_full; answer vectors must be identical; serialize_with_schema must write the same bytes. Non-trivial: non-empty structure with at least two backing arrays; distinct = distinct hash of the decoded case."
     }
     fn run(&self, data: &[u8], cx: &mut Ctx) -> R {
         let (mode, rest) = data.split_first().unwrap_or((&0, &[]));
@@ -495,6 +509,11 @@ impl Property for C15 {
             1 => bfv_case(cx, &mut u),
             2 => ef_case(cx, &mut u),
             3 => rcl_case(cx, &mut u),
+            5 => {
+                let mut b = [0u8; 8];
+                b[..rest.len().min(8)].copy_from_slice(&rest[..rest.len().min(8)]);
+                sharded_func_case(cx, u64::from_le_bytes(b))
+            }
             _ => func_case(cx, &mut u),
         }
     }
